@@ -4,6 +4,7 @@ import (
 	"fmt"
 	"math/rand"
 	"reflect"
+	"strings"
 
 	"github.com/openconfig/ygot/zzverif/lib"
 )
@@ -218,6 +219,49 @@ func c34Run(r *lib.Run, cfg *lib.Cfg, s *listSite, hist []klOp, w func(map[strin
 	return true
 }
 
+// addUnionStringTwins adds, for a single-key list keyed by a union with a string
+// member, the key UnionString("<v>") next to a key of another member whose text
+// is <v>: two different keys of a keyed map although their path strings coincide.
+func addUnionStringTwins(cfg *lib.Cfg, s *listSite, r *lib.Run) {
+	if len(s.kfs) != 1 {
+		return
+	}
+	kt := s.f.Elem.Elem().Field(s.kfs[0].Idx).Type
+	if kt.Kind() != reflect.Interface {
+		return
+	}
+	for _, t := range s.tuples {
+		cv, _ := lib.CanonScalar(t.params[0], true)
+		if strings.HasPrefix(cv, "string:") {
+			continue
+		}
+		ent := reflect.New(s.f.Elem.Elem())
+		conv := lib.FindUnionConv(ent.Elem(), kt)
+		if !conv.IsValid() {
+			return
+		}
+		out := conv.Call([]reflect.Value{reflect.ValueOf(lib.LexForm(cv))})
+		if len(out) != 2 || !out[1].IsNil() {
+			continue // no string member (or the text is taken by another member)
+		}
+		ent.Elem().Field(s.kfs[0].Idx).Set(out[0])
+		tw := keyTuple{params: []reflect.Value{ent.Elem().Field(s.kfs[0].Idx)}, keys: cfg.EntryKeys(ent)}
+		tw.id = lib.PathElem{Name: "e", Keys: tw.keys, Pos: -1}.String()
+		dup := false
+		for _, x := range s.tuples {
+			if x.id == tw.id {
+				dup = true
+			}
+		}
+		if dup || !strings.Contains(tw.id, "string:") {
+			continue
+		}
+		s.tuples = append(s.tuples, tw)
+		r.Hit("union-key-string-twin")
+		return
+	}
+}
+
 func runC34(r *lib.Run) {
 	r.Rule = "every keyed list of every configuration (all key types, single and multi key), generated New/GetOrCreate/Get/Append/Delete/Rename helpers called by name through reflection; exhaustive histories up to length L over a 3-key domain plus random length-30 histories; model = map key tuple -> entry; non-trivial = history changes the map; distinct by list+history"
 	r.Assume("an enum key left at its UNSET zero value is don't-care for the nil-key clause")
@@ -230,6 +274,7 @@ func runC34(r *lib.Run) {
 	for _, cfg := range cfgsFor(r, quick3) {
 		sites := findListSites(cfg, r.Seed, lib.KList, 3)
 		for _, s := range sites {
+			addUnionStringTwins(cfg, s, r)
 			r.Hit("list:" + cfg.Name + ":" + s.node.Info.Type.Name() + "." + s.lname)
 			r.Hit("keytype:" + lib.TypeFeature(s.kfs[0]))
 			if len(s.kfs) > 1 {
